@@ -57,10 +57,10 @@ def profile(h=0):
     return p
 
 
-def raw_rows(data):
+def raw_rows(data, kwargs=None):
     if data is None:
         return None
-    return list(csv.reader(io.StringIO(data.decode("utf-8"), newline="")))
+    return list(csv.reader(io.StringIO(data.decode("utf-8"), newline=""), **(kwargs or {})))
 
 
 class Runner(HistoryRunner):
@@ -70,11 +70,11 @@ class Runner(HistoryRunner):
         is_upd = op["op"] in UPDATES
         if is_upd and self.rng is not None and self.rng.random() < 0.04:
             op = dict(op, args={})  # nothing to do -> documented ValueError
-        pre_rows = raw_rows(s.file_bytes()) if (is_upd and s.path) else None
+        pre_rows = raw_rows(s.file_bytes(), s.cfg.get("csv")) if (is_upd and s.path) else None
         pre_model = s.model.copy() if is_upd else None
         ok = HistoryRunner._write(self, s, op)
         if is_upd and ok and pre_rows is not None:
-            post_rows = raw_rows(s.file_bytes())
+            post_rows = raw_rows(s.file_bytes(), s.cfg.get("csv"))
             sel = set(pre_model._sel(op.get("q"), mutjudge._sel_m(op))) if op.get("args") else set()
             if len(post_rows) == len(pre_rows):
                 for i, (a, b) in enumerate(zip(pre_rows, post_rows)):
@@ -96,6 +96,10 @@ def _cfg_variant(cfg, h):
     """Every third CSV history runs with flush_on_insert=False (reads go through the same buffered handle)."""
     if cfg["storage"] == "csv" and h % 3 == 0:
         return dict(cfg, flush=False)
+    if cfg["storage"] == "csv" and h % 7 == 4:
+        import csv as _csv
+
+        return dict(cfg, csv=[{"delimiter": ";"}, {"quotechar": "'", "quoting": _csv.QUOTE_ALL}, {"delimiter": "\t", "lineterminator": "\n"}][h % 3])
     return cfg
 
 
